@@ -618,6 +618,124 @@ def r3_9(ctx, R):
     ctx.floor("R3.9", "flag-field-borrows", n, 2)
 
 
+def _deref_pointee(ty):
+    for pre in ("&mut ", "&", "*mut ", "*const "):
+        if ty.startswith(pre):
+            return ty[len(pre):]
+    m = re.match(r"&'\w+ (mut )?(.*)$", ty)
+    if m:
+        return m.group(2)
+    return None
+
+
+def shared_types(ctx, inc):
+    """The ADTs living in the shared waker allocation: the header (receiver of the count functions), the slot item
+    (element of its queue) and the non-primitive types of their fields."""
+    hdr = _deref_pointee(inc[0].locals[1]) if inc and inc[0].arg_count >= 1 else None
+    out = set()
+    if hdr is None or hdr not in ctx.facts.adts:
+        return hdr, out
+    out.add(hdr)
+    work = [hdr]
+    while work:
+        a = work.pop()
+        adt = ctx.facts.adts.get(a.split("<")[0])
+        if adt is None:
+            continue
+        for v in adt["variants"]:
+            for f in v["fields"]:
+                t = ctx.facts.types.get(f["ty"])
+                if t is None or t["k"] != "adt":
+                    continue
+                if f["ty"] not in out:
+                    out.add(f["ty"])
+                    for a2 in t.get("args", []):
+                        if isinstance(a2, str) and a2.split("<")[0] in ctx.facts.adts and a2 not in out and a2.startswith(hdr.split("::")[0] + "::"):
+                            out.add(a2)
+                            work.append(a2)
+    return hdr, out
+
+
+RE_WRITE_PRIM = (r"^core::ptr::(write|write_volatile|write_unaligned|replace|swap|drop_in_place|swap_nonoverlapping)$|"
+                 r"^core::mem::(replace|swap|take)$|"
+                 r"^core::ptr::mut_ptr::<impl \*mut T>::(write|write_volatile|replace|swap|drop_in_place)$|"
+                 r"^core::ptr::NonNull::<T>::(write|replace|swap|drop_in_place)$")
+RE_COPY_PRIM = r"^core::(ptr|intrinsics)::(copy|copy_nonoverlapping)$|^core::ptr::mut_ptr::<impl \*mut T>::copy_from(_nonoverlapping)?$"
+
+
+def r3_10(ctx, R, inc, ctor, free_fn):
+    ctx.rule("R3.10", "the shared allocation is written non-atomically only while nobody else can reach it: plain stores "
+                      "through a pointer to the header / slot item (or one of their fields' types), &mut borrows of such "
+                      "memory, and ptr::write / replace / swap / drop_in_place / mem::replace / swap / take / copy on it "
+                      "occur only in the constructor (before the block is published) and in the function that frees the "
+                      "block (after the count reached zero); everywhere else the block is touched through the &-methods of "
+                      "its atomics, its DiatomicWaker, its MPSC queue and its spin mutex")
+    hdr, shared = shared_types(ctx, inc)
+    ctx.need(hdr is not None and len(shared) >= 3, "SHARED: header ADT of the reference-count functions and its field types")
+    allowed = {ctor.path, free_fn.path}
+
+    def shared_ty(ty):
+        return ty in shared
+
+    def place_hits_shared(b, p):
+        """place goes through a deref whose pointee is a shared type and has no further deref after it"""
+        ty = b.locals[p["l"]]
+        hit = False
+        for e in p["p"]:
+            if e["k"] == "deref":
+                ty = _deref_pointee(ty) or "?"
+                hit = shared_ty(ty)
+            elif e["k"] == "field":
+                ty = e.get("ty", "?")
+            elif e["k"] == "downcast":
+                pass
+            else:
+                ty = "?"
+        return hit
+    n = 0
+    nfn = 0
+    for b in ctx.facts.fn_bodies():
+        sites = []
+        for bb in range(b.n):
+            if b.is_cleanup(bb):
+                continue
+            for s_ in b.stmts(bb):
+                if s_["k"] != "assign":
+                    continue
+                if any(e["k"] == "deref" for e in s_["place"]["p"]) and place_hits_shared(b, s_["place"]):
+                    sites.append((bb, "store to " + place_str(s_["place"])))
+                rv = s_["rv"]
+                if rv["k"] == "ref" and rv.get("mut") and any(e["k"] == "deref" for e in rv["place"]["p"]) and place_hits_shared(b, rv["place"]):
+                    sites.append((bb, "&mut " + place_str(rv["place"])))
+        for bb, t, fn in b.calls():
+            if fn is None or b.is_cleanup(bb) or not t["args"]:
+                continue
+            d = fn["def"]
+            k = None
+            if re.search(RE_WRITE_PRIM, d):
+                k = 0
+            elif re.search(RE_COPY_PRIM, d):
+                k = 0 if "copy_from" in d else 1
+            if k is None or k >= len(t["args"]):
+                continue
+            a = t["args"][k]
+            aty = a["place"]["ty"] if a["k"] in ("copy", "move") else a.get("ty", "")
+            pt = _deref_pointee(aty)
+            m = re.match(r"core::ptr::NonNull<(.*)>$", aty)
+            if m:
+                pt = m.group(1)
+            if pt is not None and shared_ty(pt):
+                sites.append((bb, "%s on %s" % (d.split("::")[-1], aty)))
+        if sites:
+            nfn += 1
+        for bb, what in sites:
+            n += 1
+            ctx.ob("R3.10", b, "plain-write-to-shared-block@%s" % what.split(" ")[0] + "#%d" % sum(1 for x in sites[:sites.index((bb, what))] if x[1].split(" ")[0] == what.split(" ")[0]),
+                   b.path in allowed, b.loc(bb), what + ("" if b.path in allowed else "; only %s may do this" % sorted(allowed)))
+    ctx.floor("R3.10", "plain-writes-to-the-shared-block (constructor + free)", n, 2)
+    ctx.ob("R3.10", "<crate>", "shared types identified", True, "", "header %s; shared types %s" % (hdr, sorted(shared)))
+
+
 def run(ctx):
     R = roles(ctx)
     R.pop_fn, R.vt
@@ -643,3 +761,4 @@ def run(ctx):
     r3_7(ctx, R)
     r3_8(ctx, R)
     r3_9(ctx, R)
+    r3_10(ctx, R, inc, ctor, free_fns[0])
